@@ -204,6 +204,34 @@ def make_args(env):
                    pre=['0 <= n1 <= 4 and 0 <= n2 <= 4'])
 
 
+def body_zero(B, I):
+    """std_crv(0) == 0 and oddness at concrete values (IEEE semantics: a formula such as
+    x*|x|**(m-1) is 0*inf = nan at 0 for m < 1, which real arithmetic cannot show)."""
+    import math
+    m = [0.5, 0.9, 1.0, 1.2][ch.pick(I['mi'], 0, 4)] if B.kind == 'model' else \
+        [0.5, 0.9, 1.0, 1.2][I['mi']]
+    r, cap = run_fit(B, [10.0, 100.0, 1000.0], [30.0, 400.0, 5000.0], m, 2.0, 1.5)
+    if r[0] != 'ok':
+        return False, 'fit raised %s' % r[1], r[2]
+    std_crv = r[1][0]
+    np = B.np
+    for z in (0.0, -0.0):
+        v = std_crv(z)
+        v = float(getattr(v, 'v', v))
+        if v != 0.0:
+            return False, 'standard curve is not zero at zero'
+    arr = std_crv(np.array([0.0, 2.0, -2.0]))
+    vals = [float(getattr(x, 'v', x)) for x in B.tolist(arr)]
+    if vals[0] != 0.0 or vals[1] != -vals[2] or not (vals[1] > 0):
+        return False, 'standard curve is not odd / zero at zero on arrays'
+    return True
+
+
+def make_zero(env):
+    setup_env(env)
+    return cond_fn('fit_zero', [('mi', 'int')], body_zero, pre=['0 <= mi <= 3'])
+
+
 def conditions(tier):
     mods = ('plot', 'io', 'transform', 'stats', 'mef')
     return [
@@ -216,6 +244,9 @@ def conditions(tier):
              modules=mods, doc='objective = 0 at generating parameters, >= 0 everywhere (3 beads)'),
         Cond('objective_4', make=make_objective(4), replay=std_replay(body_objective), timeout=900,
              modules=mods, doc='same with 4 beads'),
+        Cond('zero_concrete', make=make_zero, replay=std_replay(body_zero), timeout=120,
+             modules=mods, doc='std_crv(+-0.0) == 0 and oddness evaluated concretely (IEEE) for '
+                               'slopes 0.5, 0.9, 1.0, 1.2'),
         Cond('arguments', make=make_args, replay=std_replay(body_args), timeout=120, modules=mods,
              doc='fewer than three populations or unequal lengths -> ValueError'),
     ]
